@@ -209,4 +209,246 @@ theorem compile_text_tv_text (L W R' : Str) (opts : TemplateOptions)
   rw [htail]
   simp [Tmpl.pushElement, Tmpl.elements]
 
+/-! ### `{{~v}}` : only the text in front is trimmed -/
+
+def tlSrc : Str := ['{', '{', '~', 'v', '}', '}']
+def tlToks : List (Tok Rule) :=
+  [⟨some .r_expression, 0, 6⟩, ⟨some .r_leading_tilde_to_omit_whitespace, 2, 3⟩, ⟨some .r_reference, 3, 4⟩,
+   ⟨some .r_path_inline, 3, 4⟩, ⟨some .r_path_id, 3, 4⟩]
+
+theorem tl_decided : evalK rules ws false 200 .nonAtomic templateAlt 0 tlSrc = some (.ok 6 [] tlToks) :=
+  KRes.isOkWith_eq (by decide)
+
+theorem tl_tagAt : TagAt tlSrc 200 tlToks := by
+  intro p tail
+  have := evalK_at rules ws rules_noSoi false tail (by simp) 200 .nonAtomic templateAlt rfl tlSrc _ tl_decided p
+  refine ⟨?_, by simp [shiftRes, embedK]⟩
+  rw [this]
+  simp [shiftRes, embedK, tlSrc, Nat.add_comm]
+
+theorem parse_text_tl_text (L W R' : Str) (hL : L = [] ∨ TextBeforeTag L) (hA : TextAfterTag W R') :
+    let a := L.length
+    let b := a + 6
+    let d := b + W.length
+    let n := d + R'.length
+    Pest.parse rules ws .r_handlebars (L ++ tlSrc ++ (W ++ R'))
+      = .ok ⟨n, []⟩ (⟨some .r_template, 0, if R' = [] then b else n⟩ ::
+          (rawTok 0 a ++ [⟨some .r_expression, a, b⟩, ⟨some .r_leading_tilde_to_omit_whitespace, a + 2, a + 3⟩,
+              ⟨some .r_reference, a + 3, a + 4⟩, ⟨some .r_path_inline, a + 3, a + 4⟩, ⟨some .r_path_id, a + 3, a + 4⟩]
+            ++ rawTok d n ++ [⟨none, n, n⟩])) := by
+  intro a b d n
+  have h := handlebars_text_tag_text L ['~', 'v', '}', '}'] W R' 200 _ hL tl_tagAt hA
+  have hn : (L ++ tlSrc ++ (W ++ R')).length = n := by simp [n, d, b, a, tlSrc]; omega
+  simp only [] at h
+  have h' := h.weaken (F' := defaultFuel (L ++ tlSrc ++ (W ++ R')).length) (by
+    unfold defaultFuel
+    have : (L ++ '{' :: '{' :: ['~', 'v', '}', '}'] ++ (W ++ R')).length = n := hn
+    rw [this, hn]; omega)
+  unfold Pest.parse
+  refine Eq.trans h'.1 ?_
+  have e1 : (L ++ '{' :: '{' :: ['~', 'v', '}', '}'] ++ (W ++ R')).length = n := hn
+  simp only [e1, tlToks, List.map, shiftTok, Nat.zero_add, List.length_cons, List.length_nil]
+  rw [show 6 + L.length = L.length + 6 by omega, show 2 + L.length = L.length + 2 by omega, show 3 + L.length = L.length + 3 by omega,
+    show 4 + L.length = L.length + 4 by omega]
+
+theorem step_tl (src : Str) (opts : TemplateOptions) (f a : Nat) (T0 T0' : Tmpl) (ep : Option Nat) (r0 : CTok) (rest : List CTok)
+    (hep : ep.getD 0 = a) (hv : tokStr src ⟨some .r_path_id, a + 3, a + 4, []⟩ = ['v']) (hr0 : a + 6 ≤ r0.e)
+    (hrm : removePreviousWhitespace [T0] = .ok [T0']) :
+    compileStep src opts (f + 4) { tmplStack := [T0], endPos := ep } ⟨some .r_expression, a, a + 6, []⟩
+        (⟨some .r_leading_tilde_to_omit_whitespace, a + 2, a + 3, []⟩ :: ⟨some .r_reference, a + 3, a + 4, []⟩ ::
+         ⟨some .r_path_inline, a + 3, a + 4, []⟩ :: ⟨some .r_path_id, a + 3, a + 4, []⟩ :: r0 :: rest)
+      = .ok ({ tmplStack := [T0'.pushElement (.expr valHT) (lineCol src a).1 (lineCol src a).2], endPos := some (a + 6) }, r0 :: rest) := by
+  have hv' : tokStr src ⟨some .r_reference, a + 3, a + 4, []⟩ = ['v'] := hv
+  have h1 : ¬ (r0.e < a + 6) := by omega
+  have h2 : a + 4 < r0.e := by omega
+  simp [compileStep, hep, isBlockStart, isExprLike, parseExpression, parseName, parsePathSegs, parseExprLoop, hv, hv', h1, h2,
+    frontMut, valHT, str, hrm, HelperG.new]
+
+/-- **compile2 on  L ++ {{~v}} ++ W ++ R'** : the text in front without its trailing whitespace, the expression, the text behind
+    as written -/
+theorem compile_text_tl_text (L W R' : Str) (opts : TemplateOptions)
+    (hL : L = [] ∨ TextBeforeTag L) (hA : TextAfterTag W R') :
+    ∃ m, compile2 (L ++ tlSrc ++ (W ++ R')) opts = .ok (.mk opts.name
+      ((leftT L (trimEnd L)).elements ++ [.expr valHT] ++ (if W ++ R' = [] then [] else [.raw (W ++ R')])) m) := by
+  have hparse := parse_text_tl_text L W R' hL hA
+  simp only [] at hparse
+  have hn : (L ++ tlSrc ++ (W ++ R')).length = L.length + 6 + W.length + R'.length := by
+    simp [tlSrc]; omega
+  have hs0 : slice? (L ++ tlSrc ++ (W ++ R')) 0 L.length = some L := by
+    rw [List.append_assoc]; exact slice_prefix L _
+  have hsR : slice? (L ++ tlSrc ++ (W ++ R')) (L.length + 6) (L ++ tlSrc ++ (W ++ R')).length = some (W ++ R') :=
+    slice_suffix (L ++ tlSrc) (W ++ R') _ (by simp [tlSrc])
+  have hv : tokStr (L ++ tlSrc ++ (W ++ R')) ⟨some .r_path_id, L.length + 3, L.length + 4, []⟩ = ['v'] := by
+    have : L ++ tlSrc ++ (W ++ R') = (L ++ ['{', '{', '~']) ++ ['v'] ++ (['}', '}'] ++ (W ++ R')) := by simp [tlSrc]
+    rw [this]
+    exact tokStr_mid (L ++ ['{', '{', '~']) ['v'] _ _ (by simp) (by simp)
+  generalize hsrc : L ++ tlSrc ++ (W ++ R') = src at *
+  obtain ⟨m, htail⟩ := loop_tail src W R' opts (3 * (rawTok 0 L.length).length + 3 * (rawTok (L.length + 6 + W.length) src.length).length + 40)
+    (L.length + 6) ((leftT L (trimEnd L)).pushElement (.expr valHT) (lineCol src L.length).1 (lineCol src L.length).2) false hn hsR
+  refine ⟨m, ?_⟩
+  unfold compile2 compile2Inner
+  rw [hparse]
+  simp only []
+  rw [attachEscapes_noEsc _ (by
+    intro t ht
+    simp only [List.mem_cons, List.mem_append, List.not_mem_nil, or_false] at ht
+    rcases ht with rfl | ((h | rfl | rfl | rfl | rfl | rfl) | h) | rfl
+    · show ((some Rule.r_template : Option Rule) == some Rule.r_escape) = false; decide
+    · exact rawTok_rule _ _ t h
+    · show ((some Rule.r_expression : Option Rule) == some Rule.r_escape) = false; decide
+    · show ((some Rule.r_leading_tilde_to_omit_whitespace : Option Rule) == some Rule.r_escape) = false; decide
+    · show ((some Rule.r_reference : Option Rule) == some Rule.r_escape) = false; decide
+    · show ((some Rule.r_path_inline : Option Rule) == some Rule.r_escape) = false; decide
+    · show ((some Rule.r_path_id : Option Rule) == some Rule.r_escape) = false; decide
+    · exact rawTok_rule _ _ t h
+    · show ((none : Option Rule) == some Rule.r_escape) = false; decide)]
+  rw [← hn]
+  simp only [List.map_cons, List.map_append, List.length_cons, List.length_append, List.length_map, List.map_nil, List.length_nil,
+    List.append_assoc, List.cons_append, List.nil_append]
+  rw [show 4 * ((rawTok 0 L.length).length + ((rawTok (L.length + 6 + W.length) src.length).length + (0 + 1) + 1 + 1 + 1 + 1 + 1) + 1) + 16
+      = ((3 * (rawTok 0 L.length).length + 3 * (rawTok (L.length + 6 + W.length) src.length).length + 36
+          + ((rawTok (L.length + 6 + W.length) src.length).length + 2)) + 4 + 1) + (1 + (rawTok 0 L.length).length) by omega]
+  rw [loop_head src L opts _ _ _ hs0]
+  obtain ⟨r0, rest, hrest, hr0⟩ := tail_head (L.length + 6) W.length src.length (by omega)
+  have hep : (if L = [] then none else some L.length : Option Nat).getD 0 = L.length := by
+    by_cases hLe : L = [] <;> simp [hLe]
+  have hstep := step_tl src opts
+    (3 * (rawTok 0 L.length).length + 3 * (rawTok (L.length + 6 + W.length) src.length).length + 36
+      + ((rawTok (L.length + 6 + W.length) src.length).length + 2))
+    L.length (leftT L L) (leftT L (trimEnd L)) _ r0 rest hep hv hr0 (removePrev_leftT L)
+  have hloop := loop_step src opts
+    (3 * (rawTok 0 L.length).length + 3 * (rawTok (L.length + 6 + W.length) src.length).length + 36
+      + ((rawTok (L.length + 6 + W.length) src.length).length + 2) + 4) (st1 L) _
+    ⟨some .r_expression, L.length, L.length + 6, []⟩ _ _ (by unfold st1; exact hstep)
+  rw [hrest] at htail ⊢
+  simp only [plainCTok]
+  rw [hloop]
+  rw [show 3 * (rawTok 0 L.length).length + 3 * (rawTok (L.length + 6 + W.length) src.length).length + 36
+        + ((rawTok (L.length + 6 + W.length) src.length).length + 2) + 4
+      = 3 * (rawTok 0 L.length).length + 3 * (rawTok (L.length + 6 + W.length) src.length).length + 40
+        + ((rawTok (L.length + 6 + W.length) src.length).length + 2) by omega]
+  rw [htail]
+  simp [Tmpl.pushElement, Tmpl.elements]
+
+/-! ### `{{v~}}` : only the text behind is trimmed -/
+
+def trSrc : Str := ['{', '{', 'v', '~', '}', '}']
+def trToks : List (Tok Rule) :=
+  [⟨some .r_expression, 0, 6⟩, ⟨some .r_reference, 2, 3⟩, ⟨some .r_path_inline, 2, 3⟩, ⟨some .r_path_id, 2, 3⟩,
+   ⟨some .r_trailing_tilde_to_omit_whitespace, 3, 4⟩]
+
+theorem tr_decided : evalK rules ws false 200 .nonAtomic templateAlt 0 trSrc = some (.ok 6 [] trToks) :=
+  KRes.isOkWith_eq (by decide)
+
+theorem tr_tagAt : TagAt trSrc 200 trToks := by
+  intro p tail
+  have := evalK_at rules ws rules_noSoi false tail (by simp) 200 .nonAtomic templateAlt rfl trSrc _ tr_decided p
+  refine ⟨?_, by simp [shiftRes, embedK]⟩
+  rw [this]
+  simp [shiftRes, embedK, trSrc, Nat.add_comm]
+
+theorem parse_text_tr_text (L W R' : Str) (hL : L = [] ∨ TextBeforeTag L) (hA : TextAfterTag W R') :
+    let a := L.length
+    let b := a + 6
+    let d := b + W.length
+    let n := d + R'.length
+    Pest.parse rules ws .r_handlebars (L ++ trSrc ++ (W ++ R'))
+      = .ok ⟨n, []⟩ (⟨some .r_template, 0, if R' = [] then b else n⟩ ::
+          (rawTok 0 a ++ [⟨some .r_expression, a, b⟩, ⟨some .r_reference, a + 2, a + 3⟩, ⟨some .r_path_inline, a + 2, a + 3⟩,
+              ⟨some .r_path_id, a + 2, a + 3⟩, ⟨some .r_trailing_tilde_to_omit_whitespace, a + 3, a + 4⟩]
+            ++ rawTok d n ++ [⟨none, n, n⟩])) := by
+  intro a b d n
+  have h := handlebars_text_tag_text L ['v', '~', '}', '}'] W R' 200 _ hL tr_tagAt hA
+  have hn : (L ++ trSrc ++ (W ++ R')).length = n := by simp [n, d, b, a, trSrc]; omega
+  simp only [] at h
+  have h' := h.weaken (F' := defaultFuel (L ++ trSrc ++ (W ++ R')).length) (by
+    unfold defaultFuel
+    have : (L ++ '{' :: '{' :: ['v', '~', '}', '}'] ++ (W ++ R')).length = n := hn
+    rw [this, hn]; omega)
+  unfold Pest.parse
+  refine Eq.trans h'.1 ?_
+  have e1 : (L ++ '{' :: '{' :: ['v', '~', '}', '}'] ++ (W ++ R')).length = n := hn
+  simp only [e1, trToks, List.map, shiftTok, Nat.zero_add, List.length_cons, List.length_nil]
+  rw [show 6 + L.length = L.length + 6 by omega, show 2 + L.length = L.length + 2 by omega, show 3 + L.length = L.length + 3 by omega,
+    show 4 + L.length = L.length + 4 by omega]
+
+theorem step_tr (src : Str) (opts : TemplateOptions) (f a : Nat) (T0 : Tmpl) (ep : Option Nat) (r0 : CTok) (rest : List CTok)
+    (hep : ep.getD 0 = a) (hv : tokStr src ⟨some .r_path_id, a + 2, a + 3, []⟩ = ['v']) (hr0 : a + 6 ≤ r0.e) :
+    compileStep src opts (f + 4) { tmplStack := [T0], endPos := ep } ⟨some .r_expression, a, a + 6, []⟩
+        (⟨some .r_reference, a + 2, a + 3, []⟩ :: ⟨some .r_path_inline, a + 2, a + 3, []⟩ :: ⟨some .r_path_id, a + 2, a + 3, []⟩ ::
+         ⟨some .r_trailing_tilde_to_omit_whitespace, a + 3, a + 4, []⟩ :: r0 :: rest)
+      = .ok ({ tmplStack := [T0.pushElement (.expr valHT) (lineCol src a).1 (lineCol src a).2], omitProWs := true,
+               endPos := some (a + 6) }, r0 :: rest) := by
+  have hv' : tokStr src ⟨some .r_reference, a + 2, a + 3, []⟩ = ['v'] := hv
+  have h1 : ¬ (r0.e < a + 6) := by omega
+  have h2 : a + 3 < r0.e := by omega
+  simp [compileStep, hep, isBlockStart, isExprLike, parseExpression, parseName, parsePathSegs, parseExprLoop, hv, hv', h1, h2,
+    frontMut, valHT, str, HelperG.new]
+
+/-- **compile2 on  L ++ {{v~}} ++ W ++ R'** : the text in front as written, the expression, the text behind without its leading
+    whitespace -/
+theorem compile_text_tr_text (L W R' : Str) (opts : TemplateOptions)
+    (hL : L = [] ∨ TextBeforeTag L) (hA : TextAfterTag W R') :
+    ∃ m, compile2 (L ++ trSrc ++ (W ++ R')) opts = .ok (.mk opts.name
+      ((leftT L L).elements ++ [.expr valHT] ++ (if R' = [] then [] else [.raw (trimStart (W ++ R'))])) m) := by
+  have hparse := parse_text_tr_text L W R' hL hA
+  simp only [] at hparse
+  have hn : (L ++ trSrc ++ (W ++ R')).length = L.length + 6 + W.length + R'.length := by
+    simp [trSrc]; omega
+  have hs0 : slice? (L ++ trSrc ++ (W ++ R')) 0 L.length = some L := by
+    rw [List.append_assoc]; exact slice_prefix L _
+  have hsR : slice? (L ++ trSrc ++ (W ++ R')) (L.length + 6) (L ++ trSrc ++ (W ++ R')).length = some (W ++ R') :=
+    slice_suffix (L ++ trSrc) (W ++ R') _ (by simp [trSrc])
+  have hv : tokStr (L ++ trSrc ++ (W ++ R')) ⟨some .r_path_id, L.length + 2, L.length + 3, []⟩ = ['v'] := by
+    have : L ++ trSrc ++ (W ++ R') = (L ++ ['{', '{']) ++ ['v'] ++ (['~', '}', '}'] ++ (W ++ R')) := by simp [trSrc]
+    rw [this]
+    exact tokStr_mid (L ++ ['{', '{']) ['v'] _ _ (by simp) (by simp)
+  generalize hsrc : L ++ trSrc ++ (W ++ R') = src at *
+  obtain ⟨m, htail⟩ := loop_tail_pro src W R' opts (3 * (rawTok 0 L.length).length + 3 * (rawTok (L.length + 6 + W.length) src.length).length + 40)
+    (L.length + 6) ((leftT L L).pushElement (.expr valHT) (lineCol src L.length).1 (lineCol src L.length).2) hn hsR
+  refine ⟨m, ?_⟩
+  unfold compile2 compile2Inner
+  rw [hparse]
+  simp only []
+  rw [attachEscapes_noEsc _ (by
+    intro t ht
+    simp only [List.mem_cons, List.mem_append, List.not_mem_nil, or_false] at ht
+    rcases ht with rfl | ((h | rfl | rfl | rfl | rfl | rfl) | h) | rfl
+    · show ((some Rule.r_template : Option Rule) == some Rule.r_escape) = false; decide
+    · exact rawTok_rule _ _ t h
+    · show ((some Rule.r_expression : Option Rule) == some Rule.r_escape) = false; decide
+    · show ((some Rule.r_reference : Option Rule) == some Rule.r_escape) = false; decide
+    · show ((some Rule.r_path_inline : Option Rule) == some Rule.r_escape) = false; decide
+    · show ((some Rule.r_path_id : Option Rule) == some Rule.r_escape) = false; decide
+    · show ((some Rule.r_trailing_tilde_to_omit_whitespace : Option Rule) == some Rule.r_escape) = false; decide
+    · exact rawTok_rule _ _ t h
+    · show ((none : Option Rule) == some Rule.r_escape) = false; decide)]
+  rw [← hn]
+  simp only [List.map_cons, List.map_append, List.length_cons, List.length_append, List.length_map, List.map_nil, List.length_nil,
+    List.append_assoc, List.cons_append, List.nil_append]
+  rw [show 4 * ((rawTok 0 L.length).length + ((rawTok (L.length + 6 + W.length) src.length).length + (0 + 1) + 1 + 1 + 1 + 1 + 1) + 1) + 16
+      = ((3 * (rawTok 0 L.length).length + 3 * (rawTok (L.length + 6 + W.length) src.length).length + 36
+          + ((rawTok (L.length + 6 + W.length) src.length).length + 2)) + 4 + 1) + (1 + (rawTok 0 L.length).length) by omega]
+  rw [loop_head src L opts _ _ _ hs0]
+  obtain ⟨r0, rest, hrest, hr0⟩ := tail_head (L.length + 6) W.length src.length (by omega)
+  have hep : (if L = [] then none else some L.length : Option Nat).getD 0 = L.length := by
+    by_cases hLe : L = [] <;> simp [hLe]
+  have hstep := step_tr src opts
+    (3 * (rawTok 0 L.length).length + 3 * (rawTok (L.length + 6 + W.length) src.length).length + 36
+      + ((rawTok (L.length + 6 + W.length) src.length).length + 2))
+    L.length (leftT L L) _ r0 rest hep hv hr0
+  have hloop := loop_step src opts
+    (3 * (rawTok 0 L.length).length + 3 * (rawTok (L.length + 6 + W.length) src.length).length + 36
+      + ((rawTok (L.length + 6 + W.length) src.length).length + 2) + 4) (st1 L) _
+    ⟨some .r_expression, L.length, L.length + 6, []⟩ _ _ (by unfold st1; exact hstep)
+  rw [hrest] at htail ⊢
+  simp only [plainCTok]
+  rw [hloop]
+  rw [show 3 * (rawTok 0 L.length).length + 3 * (rawTok (L.length + 6 + W.length) src.length).length + 36
+        + ((rawTok (L.length + 6 + W.length) src.length).length + 2) + 4
+      = 3 * (rawTok 0 L.length).length + 3 * (rawTok (L.length + 6 + W.length) src.length).length + 40
+        + ((rawTok (L.length + 6 + W.length) src.length).length + 2) by omega]
+  rw [htail]
+  simp [Tmpl.pushElement, Tmpl.elements]
+
 end Hbs.PlainText
